@@ -140,7 +140,7 @@ ScalarValue(f, ty, it) ==
   LET base == CASE ty.k \in {"val", "opt", "vec"} -> it.val
                 [] ty.k = "u8" -> "u:" \o LitBody(it.val)
                 [] ty.k = "bool" -> IF it.form = "word" THEN "b:true" ELSE "b:" \o LitBody(it.val)
-      w == IF f.with # "none" THEN "w(" \o base \o ")" ELSE base
+      w == IF f.with # "none" THEN "w(" \o base \o ")" ELSE base      \* for Option<Val> the converter wraps the inner value
       t == CASE f.transform = "map" -> "m(" \o w \o ")" [] f.transform = "and_then" -> "t(" \o w \o ")" [] OTHER -> w
   IN IF ty.k = "opt" THEN <<t>> ELSE t
 
